@@ -407,13 +407,14 @@ class SymRepr(str):
         return o
 
     def __contains__(self, ch):
-        if ch in ('e', 'E'):
+        if ch in ('e', 'E', 'e-', 'e+'):
             x = self.owner.e
             ax = z3.fpAbs(x)
             F = z3.Float64()
-            f = z3.And(z3.Not(z3.fpIsNaN(x)), z3.Not(z3.fpIsInf(x)), z3.Not(z3.fpIsZero(x)),
-                       z3.Or(z3.fpLT(ax, z3.FPVal(1e-4, F)), z3.fpGEQ(ax, z3.FPVal(1e16, F))))
-            return bool(ENGINE.pick(f)) if ch == 'e' else False
+            fin = z3.And(z3.Not(z3.fpIsNaN(x)), z3.Not(z3.fpIsInf(x)), z3.Not(z3.fpIsZero(x)))
+            small, large = z3.fpLT(ax, z3.FPVal(1e-4, F)), z3.fpGEQ(ax, z3.FPVal(1e16, F))
+            f = z3.And(fin, {'e': z3.Or(small, large), 'e-': small, 'e+': large}.get(ch, z3.BoolVal(False)))
+            return bool(ENGINE.pick(f)) if ch != 'E' else False
         if isinstance(ch, str) and not (set(ch) & set('0123456789.-+einfa')):
             return False          # no float repr contains such a character (e.g. XML markup tests by the serialiser)
         raise Leak('substring test on symbolic float repr')
